@@ -35,6 +35,21 @@ CAT = [
     ("tricky", "curve", "M8,13 C0,3 16,0 12,17 C6,14 5,11 9,12 Z"),
     ("nested2", "poly", [[1, 1, 13, 1, 13, 13, 1, 13], [3, 3, 11, 3, 11, 11, 3, 11], [5, 5, 9, 5, 9, 9, 5, 9]]),
 ]
+# pinned operands: only used in the pinned jobs below (polygons on a 3-unit grid with many coincident and
+# collinear edges, on which Skia's boolean operations return a wrong path without reporting failure)
+PINNED = [
+    ("skA1", "mixed", [[3, 6, 0, 9, 12, 6, 9, 9, 0, 9, 6, 12], [12, 12, 0, 6, 0, 12]]),
+    ("skB1", "poly", [[0, 9, 12, 6, 6, 12, 9, 0]]),
+    ("skA2", "poly", [[12, 0, 12, 3, 9, 9]]),
+    ("skB2", "poly", [[3, 3, 3, 6, 9, 6, 9, 12, 12, 12]]),
+    ("skC2", "poly", [[6, 12, 12, 0, 3, 3], [12, 0, 6, 6, 6, 12]]),
+]
+CATX = CAT + PINNED
+NCAT = len(CAT)
+PINNED_JOBS = [
+    ("difference", "pathops", (NCAT + 0, NCAT + 1), ("evenodd", "evenodd")),
+    ("union", "pathops", (NCAT + 2, NCAT + 3, NCAT + 4), ("nonzero", "evenodd", "evenodd")),
+]
 BOX = [-1, -1, 15, 18]
 
 
@@ -90,7 +105,7 @@ def call(op, api, entries, rules):
 
 def one(job):
     op, api, idxs, rules = job
-    entries = [CAT[i] for i in idxs]
+    entries = [CATX[i] for i in idxs]
     rec = {"op": "intersection" if op == "intersection_default" else op, "box": BOX,
            "opnds": [spec_opnd(e, r) for e, r in zip(entries, rules)]}
     try:
@@ -125,7 +140,9 @@ def unsimplifiable(entry):
 
 def classify(job, verdict):
     op, api, idxs, rules = job
-    names = [CAT[i][0] for i in idxs]
+    names = [CATX[i][0] for i in idxs]
+    if any(i >= NCAT for i in idxs):
+        return "C13/engine-silently-wrong/coincident-collinear-edges/" + op + "/" + "+".join(names)
     if len(idxs) >= 2 and any(unsimplifiable(CAT[i]) for i in idxs):
         # the engine returns a wrong path without reporting failure; picosvg passes it on
         return "C13/engine-silently-wrong/operand-skia-cannot-simplify"
@@ -148,6 +165,7 @@ def jobs_for(tier, rng):
                 if tier == "quick" and rng.random() > 0.22:
                     continue
                 jobs.append((op, "pathops" if rng.random() < 0.5 else "types", (i, j), rr))
+    jobs.extend(PINNED_JOBS)
     ntr = 500 if tier == "quick" else 8000
     for _ in range(ntr):
         k = rng.choice([3, 3, 4])
@@ -185,13 +203,13 @@ def run(out, tier):
                        "expected set is non-empty and TLC compared it on the quarter-unit lattice" % len(CAT))
         for j, v in zip(jobs, verdicts):
             if v == "ok:setop" and len(j[2]) >= 2 and len(cov["samples"]) < 2:
-                cov["samples"].append({"op": j[0], "api": j[1], "operands": [CAT[i][0] for i in j[2]],
+                cov["samples"].append({"op": j[0], "api": j[1], "operands": [CATX[i][0] for i in j[2]],
                                        "rules": j[3], "verdict": v})
         if cov["distinct_nontrivial"] < len(recs) // 3:
             raise common.MachineryError("vacuous run: %r" % hist)
         for j, v, r in zip(jobs, verdicts, recs):
             if v.startswith("BAD"):
-                names = [CAT[i][0] for i in j[2]]
+                names = [CATX[i][0] for i in j[2]]
                 out.violation(classify(j, v),
                               "TLC rejected trace: " + v,
                               {"op": j[0], "api": j[1], "operands": names, "rules": j[3], "verdict": v})
@@ -201,6 +219,6 @@ def run(out, tier):
 
 def replay(path):
     w = json.load(open(path))["witness"]
-    idx = {c[0]: i for i, c in enumerate(CAT)}
+    idx = {c[0]: i for i, c in enumerate(CATX)}
     print(one((w["op"], w["api"], tuple(idx[n] for n in w["operands"]), tuple(w["rules"]))))
     return 0
